@@ -104,12 +104,21 @@ func hostile(rng *rand.Rand, g *fixture.Geo, r *swarm.Remote) hmsg {
 			// choke, then data for the blocks that follow the ones on the wire: storrent had them queued for
 			// us and has just withdrawn them
 			b := refwire.Encode(refwire.Msg{Kind: refwire.KChoke})
-			for j := uint32(1); j <= 4; j++ {
-				d := make([]byte, 16384)
-				if off := int64(k.Index)*int64(ps) + int64(k.Begin+j*16384); off+16384 <= g.Length {
-					g.TruthInto(d, off)
+			// "following" in the torrent's own numbering of 16 KiB blocks, across piece boundaries; some of the
+			// outstanding ones as well
+			abs := (int64(k.Index)*int64(ps) + int64(k.Begin)) / 16384
+			for j := int64(-1); j <= 8; j++ {
+				off := (abs + j) * 16384
+				if off < 0 || off >= g.Length {
+					continue
 				}
-				b = append(b, refwire.Encode(refwire.Msg{Kind: refwire.KPiece, Index: k.Index, Begin: k.Begin + j*16384, Data: d})...)
+				n := int64(16384)
+				if off+n > g.Length {
+					n = g.Length - off
+				}
+				d := make([]byte, n)
+				g.TruthInto(d, off)
+				b = append(b, refwire.Encode(refwire.Msg{Kind: refwire.KPiece, Index: uint32(off / int64(ps)), Begin: uint32(off % int64(ps)), Data: d})...)
 			}
 			if rng.IntN(2) == 0 {
 				b = append(b, refwire.Encode(refwire.Msg{Kind: refwire.KUnchoke})...)
@@ -663,6 +672,88 @@ func history(t *testing.T, c *vk.C, rng *rand.Rand, i int) map[string]int {
 				if !tr.LoopAlive("C05", "after-size-votes") {
 					return
 				}
+			}
+			// a peer that serves honestly for a while — storrent's rate estimate for it grows, and with it the queue
+			// of blocks it keeps for that peer beyond the ones on the wire — then chokes and goes on talking about
+			// blocks: the ones on the wire, the ones storrent had only queued, and ones never mentioned
+			if tr.T.InfoComplete() && g.Length >= 12*16384 && rng.IntN(9) == 0 {
+				hs := tr.Connect(swarm.RemoteOpts{Fast: rng.IntN(3) != 0, Ext: false})
+				all := make([]byte, (g.NumPieces()+7)/8)
+				for p := 0; p < g.NumPieces(); p++ {
+					all[p/8] |= 0x80 >> uint(p%8)
+				}
+				hs.SendRaw(refwire.Encode(refwire.Msg{Kind: refwire.KBitfield, Data: all}))
+				hs.SendRaw(refwire.Encode(refwire.Msg{Kind: refwire.KUnchoke}))
+				tr.T.Pieces.Expire(0, nil, func(ix uint32) { tr.T.Have(ix, false) })
+				for p := 0; p < g.NumPieces() && p < 24; p++ {
+					tr.T.Request(uint32(p), 1, true, false)
+				}
+				sw.Cut()
+				served, deepest := 0, 0
+				ps := g.PieceLen
+				var last swarm.BlockKey
+				for round := 0; round < 40 && !hs.Closed(); round++ {
+					out := hs.Outstanding()
+					if len(out) > deepest {
+						deepest = len(out)
+					}
+					if len(out) >= 5 || (len(out) > 0 && round >= 30) {
+						last = out[len(out)-1]
+						break
+					}
+					for _, k := range out {
+						hs.Answer(k, "truth", 0)
+						served++
+					}
+					time.Sleep(150 * time.Millisecond)
+					sw.Cut()
+				}
+				c.R.Max("max:outstanding_at_a_served_peer", int64(deepest))
+				if deepest > 0 && !hs.Closed() && last.Length > 0 {
+					b := refwire.Encode(refwire.Msg{Kind: refwire.KChoke})
+					abs := (int64(last.Index)*int64(ps) + int64(last.Begin)) / 16384
+					for j := int64(-4); j <= 16; j++ {
+						off := (abs + j) * 16384
+						if off < 0 || off >= g.Length {
+							continue
+						}
+						n := int64(16384)
+						if off+n > g.Length {
+							n = g.Length - off
+						}
+						ix, bg := uint32(off/int64(ps)), uint32(off%int64(ps))
+						switch x := rng.IntN(4); {
+						case x == 0 && hs.Opt.Fast:
+							b = append(b, refwire.Encode(refwire.Msg{Kind: refwire.KReject, Index: ix, Begin: bg, Length: uint32(n)})...)
+						case x == 1:
+						default:
+							d := make([]byte, n)
+							g.TruthInto(d, off)
+							b = append(b, refwire.Encode(refwire.Msg{Kind: refwire.KPiece, Index: ix, Begin: bg, Data: d})...)
+						}
+					}
+					if rng.IntN(2) == 0 {
+						b = append(b, refwire.Encode(refwire.Msg{Kind: refwire.KUnchoke})...)
+					}
+					hs.SendRaw(b)
+					sw.Cut()
+					time.Sleep(time.Second)
+					sw.Cut()
+					sw.Act("%s served %d blocks honestly (up to %d outstanding), then choked and went on about the blocks around %d/%d", hs.Name, served, deepest, last.Index, last.Begin)
+					st["served_then_choked"]++
+					if deepest >= 3 {
+						st["served_then_choked_with_queue"]++
+					}
+				}
+				if !tr.LoopAlive("C05", "after-served-then-choked") {
+					return
+				}
+				if can.Closed() {
+					sw.Viol("C05", "blast-radius", "canary-peer-lost after served-then-choked", "the canary peer on the same torrent was disconnected by a message from another peer")
+					return
+				}
+				hs.Close()
+				sw.Cut()
 			}
 			// abrupt ends: the peer vanishes, possibly in the middle of a frame or right after connecting
 			if rng.IntN(12) == 0 {
